@@ -146,11 +146,13 @@ def build(chk: Check) -> None:
     impl = B.evaluate()
     chk.struct("BoostMatrix.evaluate.returns_impl", isinstance(impl, L._BoostMatrixImplementation),
                F + "BoostMatrix.evaluate", witness=type(impl).__name__)
-    got_ev = tr.val(impl)
-    hyps_ev = req + tr.hyps()
-    e1.add_wd(chk, "BoostMatrix.evaluate", tr, req, F + "BoostMatrix.evaluate", start=n_wd)
-    _entrywise(chk, "BoostMatrix.evaluate==spec", F + "BoostMatrix.evaluate", hyps_ev, got_ev, spec_val, lemma=True)
-    chk.struct("BoostMatrix.evaluate.momentum_arg", impl.args[0] == p, F + "BoostMatrix.evaluate")
+    # the layout of the printer-side implementation node is an implementation detail: if it changes, this lemma cannot be
+    # stated any more (refuted lemma); the property-level statement "generated code == explicit matrix" is E2's (below)
+    got_ev = chk.guarded("BoostMatrix.evaluate.impl_layout", lambda: tr.val(impl), F + "BoostMatrix.evaluate")
+    if got_ev is not None:
+        hyps_ev = req + tr.hyps()
+        e1.add_wd(chk, "BoostMatrix.evaluate", tr, req, F + "BoostMatrix.evaluate", start=n_wd)
+        _entrywise(chk, "BoostMatrix.evaluate==spec", F + "BoostMatrix.evaluate", hyps_ev, got_ev, spec_val, lemma=True)
 
     # the statement's equations, on the real as_explicit() output ...
     _lorentz_obligations(chk, "BoostMatrix.as_explicit.lorentz", F + "BoostMatrix.as_explicit", hyps, got, real)
@@ -262,9 +264,10 @@ def build(chk: Check) -> None:
     n_wd = len(tz2.wd)
     implz = BZ.evaluate()
     chk.struct("BoostZMatrix.evaluate.returns_impl", isinstance(implz, L._BoostZMatrixImplementation), F + "BoostZMatrix.evaluate")
-    gotz2 = tz2.val(implz)
-    e1.add_wd(chk, "BoostZMatrix.evaluate", tz2, reqz2, F + "BoostZMatrix.evaluate", start=n_wd)
-    _entrywise(chk, "BoostZMatrix.evaluate==spec", F + "BoostZMatrix.evaluate", reqz2 + tz2.hyps(), gotz2, specz2, lemma=True)
+    gotz2 = chk.guarded("BoostZMatrix.evaluate.impl_layout", lambda: tz2.val(implz), F + "BoostZMatrix.evaluate")
+    if gotz2 is not None:
+        e1.add_wd(chk, "BoostZMatrix.evaluate", tz2, reqz2, F + "BoostZMatrix.evaluate", start=n_wd)
+        _entrywise(chk, "BoostZMatrix.evaluate==spec", F + "BoostZMatrix.evaluate", reqz2 + tz2.hyps(), gotz2, specz2, lemma=True)
     _lorentz_obligations(chk, "BoostZMatrix.as_explicit.lorentz", F + "BoostZMatrix.as_explicit", hz, gotz, realz)
     # z boost agrees with the general boost for momenta along z
     t = Tr("Bz=B")
@@ -299,7 +302,9 @@ def build(chk: Check) -> None:
         _entrywise(chk, f"{nm}.as_explicit==spec", F + nm + ".as_explicit", t.hyps(), ga, sa, lemma=True)
         impl = Ra.evaluate()
         chk.struct(f"{nm}.evaluate.returns_impl", type(impl).__name__ == f"_{nm}Implementation", F + nm + ".evaluate")
-        _entrywise(chk, f"{nm}.evaluate==spec", F + nm + ".evaluate", t.hyps(), t.val(impl), sa, lemma=True)
+        got_impl = chk.guarded(f"{nm}.evaluate.impl_layout", lambda: t.val(impl), F + nm + ".evaluate")
+        if got_impl is not None:
+            _entrywise(chk, f"{nm}.evaluate==spec", F + nm + ".evaluate", t.hyps(), got_impl, sa, lemma=True)
         _lorentz_obligations(chk, f"{nm}.as_explicit.lorentz", F + nm + ".as_explicit", t.hyps(), ga, real_a)
         chk.smt(f"{nm}.as_explicit.L00==1", t.hyps(), ga[0][0].eq(CONE), function=F + nm + ".as_explicit")
         gb = t.val(cls(b, n_events=n_ev).as_explicit())
